@@ -28,7 +28,7 @@ fn box_alphabet() -> Vec<AABB> {
     ]
 }
 
-/// 64 rays: 8 origins (never on a grid plane) x 8 directions
+/// 88 rays: 8 origins (never on a grid plane) x 11 directions
 fn rays() -> Vec<Ray> {
     let origins = [
         [-1.5f32, -1.25, -1.75],
@@ -49,6 +49,10 @@ fn rays() -> Vec<Ray> {
         [1.0, 1.0, 1.0],
         [-1.0, -1.0, -1.0],
         [1.0, 0.07, 0.03],
+        // axis-parallel directions obtained by negation: components that are exactly -0.0
+        [-0.0, -0.0, -1.0],
+        [-1.0, -0.0, -0.0],
+        [-0.0, 1.0, -0.0],
     ];
     let mut v = vec![];
     for o in origins {
@@ -252,6 +256,80 @@ fn class_of(c: &BvhCase) -> String {
         BvhCase::Lattice(n) => if *n == 0 { "n=0".into() } else { "n>0".into() },
         BvhCase::Occluders(k, v) => format!("n{}{}", if *k == 0 { "=0" } else { ">0" }, if *v == 1 && *k > 1 { ",coincident-centres" } else { "" }),
     }
+}
+
+/// reference slab test in f64: does the ray (origin o, direction d) meet the box for some t >= 0 ?
+/// returns None when the answer hinges on a tie (grazing an edge / face)
+fn slab_ref(b: &AABB, o: [f64; 3], d: [f64; 3]) -> Option<bool> {
+    let (mut tmin, mut tmax) = (f64::NEG_INFINITY, f64::INFINITY);
+    let mins = [b.min.x as f64, b.min.y as f64, b.min.z as f64];
+    let maxs = [b.max.x as f64, b.max.y as f64, b.max.z as f64];
+    for k in 0..3 {
+        if d[k] == 0.0 {
+            if (o[k] - mins[k]).abs() < 1e-6 || (o[k] - maxs[k]).abs() < 1e-6 {
+                return None;
+            }
+            if o[k] < mins[k] || o[k] > maxs[k] {
+                return Some(false);
+            }
+        } else {
+            let (a, c) = ((mins[k] - o[k]) / d[k], (maxs[k] - o[k]) / d[k]);
+            tmin = tmin.max(a.min(c));
+            tmax = tmax.min(a.max(c));
+        }
+    }
+    if (tmax - tmin).abs() < 1e-6 || tmax.abs() < 1e-6 {
+        return None;
+    }
+    Some(tmax >= 0.0 && tmin <= tmax)
+}
+
+/// AABB::intersects against the f64 slab reference, and BVH over plain WallGeom elements (no box pre-check on
+/// the element side) against the one-by-one polygon test
+fn run_aabb_and_wallgeom(ctx: &Ctx) {
+    let rs = rays();
+    let mut boxes = box_alphabet();
+    boxes.extend(elements_for(&BvhCase::Lattice(40)));
+    let (mut n, mut hits) = (0u64, 0u64);
+    for (bi, b) in boxes.iter().enumerate() {
+        for (ri, r) in rs.iter().enumerate() {
+            let o = [r.origin.x as f64, r.origin.y as f64, r.origin.z as f64];
+            let d = [r.dir.x as f64, r.dir.y as f64, r.dir.z as f64];
+            let Some(exp) = slab_ref(b, o, d) else { continue };
+            n += 1;
+            let got = b.intersects(r).is_some();
+            if exp {
+                hits += 1;
+            }
+            if got != exp {
+                let negzero = [r.dir.x, r.dir.y, r.dir.z].iter().any(|c| *c == 0.0 && c.is_sign_negative());
+                ctx.violation(&format!("aabb.intersects:{}{}", if got { "false-hit" } else { "missed-hit" }, if negzero { ":direction-with-negative-zero" } else { "" }), &format!("box {:?} ray origin {:?} dir {:?}: intersects={} expected {}", b, r.origin, r.dir, got, exp), json!({"kind": "aabb", "box": bi, "ray": ri}));
+            }
+        }
+    }
+    // BVH<WallGeom>
+    for k in [1usize, 2, 5, 31, 40] {
+        for variant in 0..3 {
+            let m = occluder_model(k, variant);
+            let geoms: Vec<WallGeom> = m.shades.iter().map(|s| s.geometry.clone()).collect();
+            for leaf in [1usize, 2, 30] {
+                let bvh = BVH::build(geoms.clone(), leaf);
+                for (ri, r) in rs.iter().enumerate() {
+                    let a = bvh.intersects(r).is_some();
+                    let b = geoms.iter().any(|g| g.intersects(r).is_some());
+                    n += 1;
+                    if b {
+                        hits += 1;
+                    }
+                    if a != b {
+                        ctx.violation("bvh.intersects:differs-from-linear:wallgeom-elements", &format!("BVH over {} plain polygons (leaf size {}) says {} but testing every polygon says {} (ray {})", geoms.len(), leaf, a, b, ri), json!({"kind": "bvh-wallgeom", "k": k, "variant": variant, "leaf": leaf, "ray": ri}));
+                    }
+                }
+            }
+        }
+    }
+    ctx.eval(n);
+    ctx.note("aabb_and_wallgeom", json!({"comparisons": n, "expected_hits": hits}));
 }
 
 fn run_bvh(ctx: &Ctx) {
@@ -631,11 +709,12 @@ fn run_reveals(ctx: &Ctx) {
 
 pub fn run(ctx: &Ctx) -> i32 {
     run_bvh(ctx);
+    run_aabb_and_wallgeom(ctx);
     run_polys(ctx);
     run_reveals(ctx);
     ctx.finish(
         "model_checking",
-        "(a) BVH: all sequences of length 0..L over an 8-box alphabet on the {0..3}^3 grid (flat, point, two boxes with identical centres; L=4 quick / 5 thorough) x leaf size {1,2,3,30} x 64 rays, n copies of one element, collinear centres, centres coinciding on the split axis, prefixes of a 216-box lattice, shade sets through BVH<&Occluder>; each build runs in a supervised worker process (10 s watchdog, 4 GiB) and BVH.intersects(r).is_some() is compared with testing every obstacle; (b) all simple polygons (general position) with 3..4 vertices on the 4x4 grid (+5-gons 4x4 and 6-gons 3x3 in thorough, 5-gons 3x3 in quick) x poses (tilt{0,30,90,135,180} x az{0,45,90,-120,180} x 2 positions) x 64 quarter-lattice targets x 3 directions x {front-towards, front-away, behind-towards, parallel} against exact integer point-in-polygon (targets on the outline skipped) + AABB containment; (c) reveal quads for setback{.05,.2,1} x 3 window rects x 6 tilts x 5 azimuths x 2 positions against the wall's own transform; non-trivial = non-empty obstacle set / polygon with at least one expected hit / 4 reveal quads generated",
+        "(a) BVH: all sequences of length 0..L over an 8-box alphabet on the {0..3}^3 grid (flat, point, two boxes with identical centres; L=4 quick / 5 thorough) x leaf size {1,2,3,30} x 88 rays (incl. directions with -0.0 components), n copies of one element, collinear centres, centres coinciding on the split axis, prefixes of a 216-box lattice, shade sets through BVH<&Occluder>; each build runs in a supervised worker process (watchdog, 4 GiB) and BVH.intersects(r).is_some() is compared with testing every obstacle; AABB::intersects itself against an f64 slab test for 48 boxes x 88 rays, and BVH over plain polygons (no box pre-check on the element side) against the one-by-one polygon test; (b) all simple polygons (general position) with 3..4 vertices on the 4x4 grid (+5-gons 4x4 and 6-gons 3x3 in thorough, 5-gons 3x3 in quick) x poses (tilt{0,30,90,135,180} x az{0,45,90,-120,180} x 2 positions) x 64 quarter-lattice targets x 3 directions x {front-towards, front-away, behind-towards, parallel} against exact integer point-in-polygon (targets on the outline skipped) + AABB containment; (c) reveal quads for setback{.05,.2,1} x 3 window rects x 6 tilts x 5 azimuths x 2 positions against the wall's own transform; non-trivial = non-empty obstacle set / polygon with at least one expected hit / 4 reveal quads generated",
         true,
         json!({}),
     )
